@@ -515,6 +515,30 @@ class Model:
             path.insert(0, reach[path[0]][0])
         return path
 
+    KNOWN_DECORATORS = {"property", "staticmethod", "classmethod", "dataclass", "dataclasses.dataclass"}
+    MEMO_DECORATORS = {"lru_cache", "functools.lru_cache", "cache", "functools.cache", "cached_property", "functools.cached_property"}
+
+    def decorators(self, fq: str) -> List[str]:
+        fi = self.funcs[fq]
+        if fi.is_module_body:
+            return []
+        out = []
+        for d in getattr(fi.node, "decorator_list", []):
+            e = d.func if isinstance(d, ast.Call) else d
+            out.append(core.src(e))
+        return out
+
+    def memoised(self, fq: str) -> bool:
+        return any(d in self.MEMO_DECORATORS for d in self.decorators(fq))
+
+    def unknown_decorators(self) -> List[Tuple[str, str]]:
+        out = []
+        for fq in self.funcs:
+            for d in self.decorators(fq):
+                if d not in self.KNOWN_DECORATORS and d not in self.MEMO_DECORATORS:
+                    out.append((fq, d))
+        return out
+
     def stats(self) -> Dict[str, int]:
         total = sum(len(v) for v in self.calls.values())
         unresolved = len(self.unresolved)
